@@ -88,6 +88,13 @@ func (p *Parser) loadFile(path string, child *file) (*file, error) {
 }
 
 func (p *Parser) loadFileAndParents(path string, child *file) ([]*file, error) {
+	// A file that is (transitively) its own parent would be loaded forever.
+	for c := child; c != nil; c = c.child {
+		if c.id == path || strings.HasSuffix(c.id, "|"+path) {
+			return nil, fmt.Errorf("%s: $parent cycle: %w", path, ErrCircularRef)
+		}
+	}
+
 	f, err := p.loadFile(path, child)
 	if err != nil {
 		return nil, err
